@@ -10,18 +10,101 @@ variable {σ κ : Type} [DecidableEq σ] [DecidableEq κ]
 /-- `EpsilonNFA.accepts(w)` ⇔ some run from a start state spells `w` (ε symbols in the
 word are skipped) and ends in a final state -/
 theorem acceptsE_iff (A : ENFA σ) (w : List (Option Nat)) :
-    A.acceptsE w = true ↔ A.Lang (w.filterMap id) := by
-  sorry
+    A.acceptsE w = true ↔ A.Lang (w.filterMap id) :=
+  acceptsE_iff_lang A w
+
+/-- the fold of `acceptsN` computes the states reached by runs (ε-free automata) -/
+theorem mem_foldl_nextL_iff (A : ENFA σ) (h : A.EpsFree) (S : List σ) (w : List Nat) (r : σ) :
+    r ∈ (w.map some).foldl (fun cur a => A.nextL cur a) S ↔ ∃ q ∈ S, A.Run q w r := by
+  induction w generalizing S with
+  | nil =>
+    simp only [List.map_nil, List.foldl_nil, h.run_nil_iff]
+    constructor
+    · intro hr; exact ⟨r, hr, rfl⟩
+    · rintro ⟨q, hq, rfl⟩; exact hq
+  | cons a w ih =>
+    rw [List.map_cons, List.foldl_cons, ih]
+    constructor
+    · rintro ⟨q', hq', hrun⟩
+      obtain ⟨q, hq, he⟩ := (mem_nextL_iff A _ _ _).mp hq'
+      exact ⟨q, hq, Run.step he hrun⟩
+    · rintro ⟨q, hq, hrun⟩
+      obtain ⟨q', he, hr⟩ := (h.run_cons_iff q r a w).mp hrun
+      exact ⟨q', (mem_nextL_iff A _ _ _).mpr ⟨q, hq, he⟩, hr⟩
 
 /-- `NondeterministicFiniteAutomaton.accepts`, for automata of that class (no ε-edge) -/
 theorem acceptsN_iff (A : ENFA σ) (h : A.EpsFree) (w : List Nat) :
     A.acceptsN (w.map some) = true ↔ A.Lang w := by
-  sorry
+  unfold acceptsN Lang
+  simp only [List.any_eq_true, decide_eq_true_eq, mem_foldl_nextL_iff A h, List.mem_eraseDups]
+  constructor
+  · rintro ⟨f, ⟨s, hs, hr⟩, hf⟩; exact ⟨s, hs, f, hf, hr⟩
+  · rintro ⟨s, hs, f, hf, hr⟩; exact ⟨f, ⟨s, hs, hr⟩, hf⟩
+
+/-- in a deterministic automaton the first listed successor is the only one -/
+theorem Deterministic.head?_succs_iff {A : ENFA σ} (hd : A.Deterministic) (q r : σ)
+    (a : Option Nat) : (A.succs q a).head? = some r ↔ (q, a, r) ∈ A.delta := by
+  constructor
+  · intro hh
+    exact (mem_succs A q r a).mp (List.mem_of_head? hh)
+  · intro he
+    have hm := (mem_succs A q r a).mpr he
+    cases hs : A.succs q a with
+    | nil => rw [hs] at hm; cases hm
+    | cons x xs =>
+      have hx : (q, a, x) ∈ A.delta := (mem_succs A q x a).mp (by rw [hs]; exact List.mem_cons_self)
+      rw [List.head?_cons, hd.2.1 q a x r hx he]
+
+/-- the fold of `acceptsD` follows the unique run (deterministic ε-free automata) -/
+theorem foldl_headSucc_iff (A : ENFA σ) (hd : A.Deterministic) (he : A.EpsFree)
+    (cur : Option σ) (w : List Nat) (r : σ) :
+    (w.map some).foldl (fun cur a => cur.bind (fun q => (A.succs q a).head?)) cur = some r ↔
+      ∃ q, cur = some q ∧ A.Run q w r := by
+  induction w generalizing cur with
+  | nil =>
+    simp only [List.map_nil, List.foldl_nil, he.run_nil_iff]
+    constructor
+    · intro hr; exact ⟨r, hr, rfl⟩
+    · rintro ⟨q, hq, rfl⟩; exact hq
+  | cons a w ih =>
+    rw [List.map_cons, List.foldl_cons, ih]
+    constructor
+    · rintro ⟨q', hq', hrun⟩
+      obtain ⟨q, hq, hh⟩ := Option.bind_eq_some_iff.mp hq'
+      exact ⟨q, hq, Run.step ((hd.head?_succs_iff q q' _).mp hh) hrun⟩
+    · rintro ⟨q, hq, hrun⟩
+      obtain ⟨q', hedge, hr⟩ := (he.run_cons_iff q r a w).mp hrun
+      exact ⟨q', Option.bind_eq_some_iff.mpr ⟨q, hq, (hd.head?_succs_iff q q' _).mpr hedge⟩, hr⟩
 
 /-- `DeterministicFiniteAutomaton.accepts`, for automata of that class -/
 theorem acceptsD_iff (A : ENFA σ) (hd : A.Deterministic) (he : A.EpsFree) (w : List Nat) :
     A.acceptsD (w.map some) = true ↔ A.Lang w := by
-  sorry
+  have hstart : ∀ s, A.starts.head? = some s ↔ s ∈ A.starts := by
+    intro s
+    constructor
+    · exact List.mem_of_head?
+    · intro hs
+      cases hst : A.starts with
+      | nil => rw [hst] at hs; cases hs
+      | cons x xs =>
+        rw [List.head?_cons, hd.1 x (by rw [hst]; exact List.mem_cons_self) s hs]
+  unfold acceptsD Lang
+  split
+  · rename_i hnone
+    constructor
+    · intro h; cases h
+    · rintro ⟨s, hs, f, hf, hr⟩
+      have := (foldl_headSucc_iff A hd he _ w f).mpr ⟨s, (hstart s).mpr hs, hr⟩
+      rw [hnone] at this; cases this
+  · rename_i q hq
+    obtain ⟨s, hs, hr⟩ := (foldl_headSucc_iff A hd he _ w q).mp hq
+    simp only [decide_eq_true_eq]
+    constructor
+    · intro hf; exact ⟨s, (hstart s).mp hs, q, hf, hr⟩
+    · rintro ⟨s', hs', f, hf, hr'⟩
+      have := (foldl_headSucc_iff A hd he _ w f).mpr ⟨s', (hstart s').mpr hs', hr'⟩
+      rw [hq] at this
+      cases this; exact hf
 
 end ENFA
 end Pfl
